@@ -168,8 +168,10 @@ def explore(run, max_paths=20000, both=False, time_budget=None):
         if len(results) > max_paths:
             results.append(PathResult(Ctx(), "unsupported", f"more than {max_paths} paths"))
             break
-        if time_budget and time.time() - t0 > time_budget:
-            results.append(PathResult(Ctx(), "unsupported", "time budget exhausted"))
+        from . import smt as _smt
+
+        if (time_budget and time.time() - t0 > time_budget) or (_smt.DEADLINE[0] is not None and time.time() > _smt.DEADLINE[0]):
+            results.append(PathResult(Ctx(), "unsupported", "time budget of the unit exhausted"))
             break
     return results
 
